@@ -346,4 +346,21 @@ theorem runAcc_inv (ids : List Int) : ∀ (b acc : List Int), b ≠ [] → (∀ 
       have := ih _ _ hb' hrest step
       exact ⟨this.1, by rw [this.2, hlen]⟩
 
+theorem count_set_zero (l : List Int) : ∀ (k : Nat) (x : Int), l[k]? = some 0 → x ≠ 0 →
+    (l.set k x).count 0 + 1 = l.count 0 := by
+  induction l with
+  | nil => intro k x h; simp at h
+  | cons a rest ih =>
+    intro k x h hx
+    cases k with
+    | zero =>
+      simp at h
+      subst h
+      simp [List.count_cons, hx]
+    | succ j =>
+      simp only [List.getElem?_cons_succ] at h
+      have := ih j x h hx
+      simp only [List.set_cons_succ, List.count_cons]
+      omega
+
 end TdModel.C07
